@@ -60,6 +60,10 @@ impl Window {
             return None;
         };
 
+        // Las aletas laterales están en un plano vertical perpendicular al opaco que contiene el
+        // borde lateral del hueco: su contorno se gira en ese plano según la inclinación del opaco
+        let (tilt_sin, tilt_cos) = wallgeom.tilt.to_radians().sin_cos();
+
         let overhang = Shade {
             id: uuid_from_str(&format!("{}-top_setback", self.id)),
             name: format!("{}_top_setback", self.name),
@@ -81,14 +85,17 @@ impl Window {
             id: uuid_from_str(&format!("{}-left_setback", self.id)),
             name: format!("{}_left_setback", self.name),
             geometry: WallGeom {
-                tilt: wallgeom.tilt,
+                tilt: 90.0,
                 azimuth: wallgeom.azimuth + 90.0,
                 position: Some(wall2world * point![wpos.x, wpos.y + wing.height, 0.0]),
                 polygon: vec![
                     point![0.0, 0.0],
-                    point![0.0, -wing.height],
-                    point![wing.setback, -wing.height],
-                    point![wing.setback, 0.0],
+                    point![-wing.height * tilt_cos, -wing.height * tilt_sin],
+                    point![
+                        wing.setback * tilt_sin - wing.height * tilt_cos,
+                        -wing.setback * tilt_cos - wing.height * tilt_sin
+                    ],
+                    point![wing.setback * tilt_sin, -wing.setback * tilt_cos],
                 ],
             },
         };
@@ -97,14 +104,17 @@ impl Window {
             id: uuid_from_str(&format!("{}-right_setback", self.id)),
             name: format!("{}_right_setback", self.name),
             geometry: WallGeom {
-                tilt: wallgeom.tilt,
+                tilt: 90.0,
                 azimuth: wallgeom.azimuth - 90.0,
                 position: Some(wall2world * point![wpos.x + wing.width, wpos.y + wing.height, 0.0]),
                 polygon: vec![
                     point![0.0, 0.0],
-                    point![-wing.setback, 0.0],
-                    point![-wing.setback, -wing.height],
-                    point![0.0, -wing.height],
+                    point![-wing.setback * tilt_sin, -wing.setback * tilt_cos],
+                    point![
+                        -wing.setback * tilt_sin + wing.height * tilt_cos,
+                        -wing.setback * tilt_cos - wing.height * tilt_sin
+                    ],
+                    point![wing.height * tilt_cos, -wing.height * tilt_sin],
                 ],
             },
         };
